@@ -9,6 +9,8 @@ mod c02;
 mod c03;
 mod c04;
 mod c05;
+mod c06;
+mod c07;
 mod c08;
 mod c09;
 mod c10;
@@ -17,6 +19,7 @@ mod c14;
 mod c15;
 mod c17;
 mod c18;
+mod codes;
 mod dec;
 mod arith;
 
@@ -76,6 +79,8 @@ fn main() {
         "C03" => c03::run(&run),
         "C04" => c04::run(&run),
         "C05" => c05::run(&run),
+        "C06" => c06::run(&run),
+        "C07" => c07::run(&run),
         "C08" => c08::run(&run),
         "C09" => c09::run(&run),
         "C10" => c10::run(&run),
